@@ -112,9 +112,10 @@ pub fn check_players(cfg: &Config, players: Option<&Vec<espada::hand_range::Hand
         Some(p) => drain_with(cfg, p, deals.len())?,
         None => drain(cfg, deals.len())?,
     };
+    let widths = key_widths(cfg);
     let mut got: Vec<DealKey> = Vec::with_capacity(recs.len());
     for r in &recs {
-        let k = r.key();
+        let k = r.key(&widths);
         got.push(k);
         match deals.binary_search_by_key(&k, |d| d.key) {
             Ok(i) => {
@@ -163,6 +164,9 @@ pub fn check_players(cfg: &Config, players: Option<&Vec<espada::hand_range::Hand
     }
     if n >= 7 {
         cls |= 128;
+    }
+    if n >= 12 {
+        cls |= 1024;
     }
     if cfg.ranges.iter().any(|r| r.combos.iter().any(|c| c.2 != 1.0)) {
         cls |= 16;
@@ -231,6 +235,7 @@ pub fn check_prefix(c: &PrefixCase) -> CheckResult {
     };
     vensure!(from <= to, "bad-case", "window reversed");
     let tr = Translator::new(cfg);
+    let widths = key_widths(cfg);
     let t_dbg = std::time::Instant::now();
     let mut keys = std::collections::HashSet::new();
     let mut got = 0usize;
@@ -248,9 +253,9 @@ pub fn check_prefix(c: &PrefixCase) -> CheckResult {
         if first_pos.is_none() {
             first_pos = Some(p);
         }
-        vensure!(keys.insert(rec.key()), "duplicate-deal", "deal yielded more than once within the first {} showdowns: {}", got + 1, describe_key(cfg, rec.key()));
+        vensure!(keys.insert(rec.key(&widths)), "duplicate-deal", "deal yielded more than once within the first {} showdowns: {}", got + 1, describe_key(cfg, rec.key(&widths)));
         let want: f64 = rec.combos.iter().enumerate().map(|(i, ci)| cfg.ranges[i].combos[*ci as usize].2 as f64).product();
-        check_probability(cfg, &rec.combos, f32::from_bits(rec.prob_bits), want).map_err(|e| Fail::new("probability", format!("deal {}: {}", describe_key(cfg, rec.key()), e)))?;
+        check_probability(cfg, &rec.combos, f32::from_bits(rec.prob_bits), want).map_err(|e| Fail::new("probability", format!("deal {}: {}", describe_key(cfg, rec.key(&widths)), e)))?;
         got += 1;
         if got >= c.take {
             exhausted = false;
@@ -326,7 +331,7 @@ pub fn prefix_strategy(scoped: bool) -> impl Strategy<Value = PrefixCase> {
     })
 }
 
-pub const CLASSES: &[&str] = &["player_player_collision", "range_overlaps_flop", "range_over_255", "three_plus_players", "weights_not_1", "no_legal_deal", "full_1326_range", "seven_plus_players", "tiny_weights", "combo_named_by_two_tokens"];
+pub const CLASSES: &[&str] = &["player_player_collision", "range_overlaps_flop", "range_over_255", "three_plus_players", "weights_not_1", "no_legal_deal", "full_1326_range", "seven_plus_players", "tiny_weights", "combo_named_by_two_tokens", "twelve_plus_players"];
 
 pub fn strategy(budget: u128) -> impl Strategy<Value = Config> {
     let sizes = prop_oneof![
@@ -337,6 +342,9 @@ pub fn strategy(budget: u128) -> impl Strategy<Value = Config> {
         4 => pool_config(2..=4, 6..=12, 8),
         1 => pool_config(5..=6, 10..=14, 3),
         1 => pool_config(7..=10, 16..=26, 2),
+        1 => pool_config(11..=16, 26..=40, 1),
+        // up to 23 single-combo players, pairwise disjoint except for exactly one pair of seats
+        2 => one_overlap_config(),
         2 => free_config(1..=1, 1, 1326),
         2 => free_config(2..=3, 1, 6),
         // the empty list of players: one showdown per board, probability 1 (empty product)
@@ -373,7 +381,7 @@ pub fn strategy(budget: u128) -> impl Strategy<Value = Config> {
 }
 
 pub fn run(ctx: &mut Ctx) {
-    ctx.rule = "proptest configurations (ordered flop, 1..=10 players, ranges built directly from combo subsets with weights {1,.5,.25,0} + arbitrary f32 in [2^-10,1] + 'nearly flat' ranges whose weights are neighbouring f32 values): card-pool ranges (frequent player-player blocking, pools may contain flop cards), one player of any size up to 1326, small free ranges, two identical ranges, narrow beside wide (127/128/129/255/256/257/300/511/512/513/1023/1024/1025/1325/1326/random); tiny weights (around 2^-20..2^-24) when there are <= 4 players; sizes cut to a slot budget (cost bound). Oracle: multiset of yielded deals == reference enumeration (every legal deal once, nothing else), board = flop in order + turn/river, hole cards in player order, probability == product of the chosen weights (<= 4 players: exactly one of the f32 values some order/association of the multiplications gives, for one player the weight itself; more players: within (n+1) roundings), all cards distinct. Stream parsed_ranges: 1-3 players whose ranges are PARSED from generated token lists with overlapping tokens (the range's insertion history differs from a collected range of the same contents); same oracle. Stream huge_prefix: 3 ranges of 300-1326 combos each or 4 of up to 160 (up to 2.3e9 slots per position, far too large to drain): the first 1-3000 showdowns must be legal, distinct, ordered by position, start at the first position that has a legal deal, carry the right probability, and there must be as many of them as the window provably holds. Non-trivial = the reference excluded >= 1 candidate deal because two players collide AND some player has >= 2 combos; distinct by configuration.".into();
+    ctx.rule = "proptest configurations (ordered flop, 0..=16 players, ranges built directly from combo subsets with weights {1,.5,.25,0} + arbitrary f32 in [2^-10,1] + 'nearly flat' ranges whose weights are neighbouring f32 values): card-pool ranges (frequent player-player blocking, pools may contain flop cards), one player of any size up to 1326, small free ranges, two identical ranges, narrow beside wide (127/128/129/255/256/257/300/511/512/513/1023/1024/1025/1325/1326/random); tiny weights (around 2^-20..2^-24) when there are <= 4 players; sizes cut to a slot budget (cost bound). Oracle: multiset of yielded deals == reference enumeration (every legal deal once, nothing else), board = flop in order + turn/river, hole cards in player order, probability == product of the chosen weights (<= 4 players: exactly one of the f32 values some order/association of the multiplications gives, for one player the weight itself; more players: within (n+1) roundings), all cards distinct. Stream parsed_ranges: 1-3 players whose ranges are PARSED from generated token lists with overlapping tokens (the range's insertion history differs from a collected range of the same contents); same oracle. Stream huge_prefix: 3 ranges of 300-1326 combos each or 4 of up to 160 (up to 2.3e9 slots per position, far too large to drain): the first 1-3000 showdowns must be legal, distinct, ordered by position, start at the first position that has a legal deal, carry the right probability, and there must be as many of them as the window provably holds. Non-trivial = the reference excluded >= 1 candidate deal because two players collide AND some player has >= 2 combos; distinct by configuration.".into();
     ctx.assumptions = vec![
         "turn/river order inside the board is not demanded here (C04 does)".into(),
         "weights in {0} U [2^-10,1] (and a few values down to 2^-24 when there are <= 4 players) so that the product cannot leave the normal f32 range".into(),
